@@ -14,7 +14,9 @@ CLAIMS = {
               "into chunks: varint reader/writer/size agree; a fresh MessageBufReader fed any chunking of a well-formed "
               "stream yields exactly the written frames (drain_any_chunking, any buffer capacity); the end-of-log scan "
               "counts min(count,n) records and stops at the first zero length, never earlier (scan_any_chunking, "
-              "scan_to_end); FileMessageReader::read_index_position returns offset/length of record i; the check's "
+              "scan_to_end); FileMessageReader::read_index_position returns offset/length of record i and read_next, called "
+              "until it fails, returns exactly the frames in order wherever the stream starts in the file and however "
+              "short its last record is (fileReader_index_position, fileReader_read_next); the check's "
               "oracle equals the spec (oracle_is_spec). Tie: differential correspondence against the real functions "
               "(including real-file scans through LogInnerManager::init), oracle judging the implementation's answers."),
         note=("trusted: Lean kernel; hand model RNacos/Model/{Varint,BufReader,FileReader}.lean; bytes<256; tokio file "
@@ -356,7 +358,9 @@ CLAIMS = {
               "gone) after the first check past the health time-out and gone after the first check past the instance "
               "time-out (unhealthy_after, removed_after), with the arming facts they need (update_arms, "
               "markUnhealthy_arms); a heartbeat (PUT /instance/beat: an update tag with nothing set) never changes what a "
-              "registered instance is - persistence class, enabled, weight, the persistent set (beat_keeps_persistence). "
+              "registered instance is - persistence class, enabled, weight, the persistent set (beat_keeps_persistence); a "
+              "failed TCP probe of a persistent instance's host marks it unhealthy and queues it, and still no time check "
+              "removes it (probed_persistent_never_expires; probe_ok_instance for the recovery). "
               "Kept visible: taken_over_never_expires = open known finding F16c (replayed on the "
               "real actor every run); F16a found and fixed. Tie: correspondence on the real NamingActor with a frozen "
               "wall clock incl. the exact +-1 ms boundaries of both time-outs; timeline oracle on the "
